@@ -359,6 +359,16 @@ func TestC32(t *testing.T) {
 				}
 			}
 		}
+		// the look-alike only doubles a voter that is still there, unchanged, at the end: a later operation
+		// may have removed or replaced the original, then the look-alike is left out again (what remains is
+		// an ordinary removal)
+		if twinSwap {
+			c := sm.twins[0]
+			if v, still := sm.reg[c]; !still || v != pm.reg[c] {
+				sm.twins, twinSwap = nil, false
+				ops = append(ops, "look-alike dropped again")
+			}
+		}
 		// keep the payload valid
 		if sm.quorum > len(sm.sens) || sm.quorum > len(sm.reg) {
 			sm.quorum = min(len(sm.sens), len(sm.reg))
